@@ -38,6 +38,16 @@ def tree(schema, defs):
     if 'allOf' in schema and len(schema['allOf']) == 1 and not any(k in schema for k in ('type', 'properties', 'enum')):
         # schemars wraps a $ref that carries metadata in a one-element allOf
         return tree(schema['allOf'][0], defs)
+    if 'oneOf' in schema and all(_ext_variant(a) is not None for a in schema['oneOf']) and any(_ext_variant(a)[0] == 'data' for a in schema['oneOf']):
+        units, variants = [], []
+        for a in schema['oneOf']:
+            kind, payload = _ext_variant(a)
+            if kind == 'units':
+                units += payload
+            else:
+                name, content = payload
+                variants.append((name, tree(content, defs)))
+        return {'k': 'extenum', 'units': units, 'variants': variants}
     for k in ('oneOf', 'anyOf'):
         if k in schema:
             alts = schema[k]
@@ -112,6 +122,21 @@ def tree(schema, defs):
     raise Unsupported(f'type {t!r}')
 
 
+def _ext_variant(a):
+    """('units', [names]) for a string enum alternative, ('data', (name, content schema)) for a
+    closed single-member object - the two alternative shapes of an externally tagged enum."""
+    if not isinstance(a, dict):
+        return None
+    if a.get('type') == 'string' and 'enum' in a and len(a) <= 3:
+        return ('units', list(a['enum']))
+    props = a.get('properties')
+    if a.get('type') == 'object' and isinstance(props, dict) and len(props) == 1 and a.get('required') == list(props) \
+            and a.get('additionalProperties') is False:
+        name = next(iter(props))
+        return ('data', (name, props[name]))
+    return None
+
+
 def is_leaf(n):
     return n['k'] in ('null', 'bool', 'int', 'str', 'strenum', 'intenum') or (n['k'] == 'nullable' and is_leaf(n['inner']))
 
@@ -139,11 +164,13 @@ def counts(n, acc=None):
         for p in n['props']:
             acc['member'] += 1
             counts(p['sch'], acc)
+    elif k == 'extenum':
+        pass    # numbering of leaves/objects inside a variant is per chosen variant (see variant_counts)
     return acc
 
 
 class Plan:
-    def __init__(self, widths=(1,), array_len=1, compound_null=False, present=None, mutation=None, name='p', descr='', pick=0):
+    def __init__(self, widths=(1,), array_len=1, compound_null=False, present=None, mutation=None, name='p', descr='', pick=0, variant=0):
         self.widths = tuple(widths)
         self.array_len = array_len
         self.compound_null = compound_null
@@ -151,7 +178,13 @@ class Plan:
         self.mutation = mutation    # None | ('wrong', k, kind) | ('extra', k) | ('arity', k, d) | ('freeenum', k)
         self.name = name
         self.descr = descr
+        self.variant = variant      # which alternative of an externally tagged enum the instance takes (units first, then data variants)
         self.pick = pick            # which member string-enum leaves take (rotated per leaf): concrete, because a symbolic choice among strings of different lengths makes lengths symbolic
+
+
+def variant_counts(n, v):
+    """counts() of the content of data variant v of an extenum root"""
+    return counts(n['variants'][v][1])
 
 
 def span(n, plan):
@@ -188,6 +221,7 @@ class Emitter:
         self.const_bad = []    # statically known enforced violations (strings for the report)
         self.members = []      # (path, name, pos_of_value, present, node, prop) of object members, for round-trip checks
         self.leaves = []       # (pos, node, live) of leaves
+        self.tags = []         # (key position, variant name) of externally tagged data variants
 
     def w(self, line):
         self.lines.append('    ' + line)
@@ -209,7 +243,7 @@ class Emitter:
         return '&[' + ', '.join(map(str, self.plan.widths)) + ']'
 
     # ---- build + oracle for one value; `live` = the value is part of the instance
-    def value(self, n, live=True, path=''):
+    def value(self, n, live=True, path='', optional_member=False):
         plan = self.plan
         if is_leaf(n):
             k = self.leaf_no
@@ -239,6 +273,10 @@ class Emitter:
                 v = self.leaf_verdict(inner, pos)
                 if n['k'] == 'nullable':
                     v = f'(if is_null(&doc, {pos}) {{ OK }} else {{ {v} }})'
+                elif optional_member:
+                    # an explicit null for a non-required member is schema-invalid, but typify represents
+                    # such members as Option<T>, for which serde reads null as None: nothing is claimed
+                    v = f'(if is_null(&doc, {pos}) {{ SOFT }} else {{ {v} }})'
                 self.verdict.append(v)
             self.leaves.append((pos, n, live))
             return
@@ -299,7 +337,7 @@ class Emitter:
                 vpos = self.pos
                 self.members.append({'obj': obj_pos, 'path': path, 'name': p['name'], 'pos': vpos, 'present': present, 'live': live and present,
                                      'prop': p, 'obj_live': live})
-                self.value(p['sch'], live and present, f'{path}.{p["name"]}')
+                self.value(p['sch'], live and present, f'{path}.{p["name"]}', optional_member=not p['required'])
                 self.span_end(ki, vpos)
                 if live and not present and p['required']:
                     self.const_bad.append(f'required member {path}.{p["name"]} absent')
@@ -309,6 +347,36 @@ class Emitter:
                 if live and n['closed']:
                     self.const_bad.append(f'undeclared member in closed object #{ok_}')
             self.span_end(si, start)
+        elif k == 'extenum':
+            v = plan.variant
+            mut = plan.mutation
+            if v < len(n['units']):
+                name = n['units'][v]
+                self.w(f'doc.push_str({rstr(name)});')
+                self.pos += 1
+                if mut and mut[0] == 'badtag':
+                    raise Unsupported('badtag on a unit variant')
+            else:
+                name, content = n['variants'][v - len(n['units'])]
+                si, sp = self.span_begin()
+                self.w(f'doc.push(Tok::map(1, {sp}));')
+                self.pos += 1
+                start = self.pos
+                ki, ksp = self.span_begin()
+                if mut and mut[0] == 'badtag':
+                    # an undeclared tag: 1..2 symbolic letters different from every variant name
+                    names = n['units'] + [x[0] for x in n['variants']]
+                    self.w(f'put_bad_tag(s, &mut doc, {rstrs(names)}, {ksp}, {mut[1]});')
+                    if live:
+                        self.const_bad.append('undeclared variant tag')
+                else:
+                    self.w(f'put_key(&mut doc, {rstr(name)}, true, {ksp});')
+                    self.tags.append((self.pos, name))
+                self.pos += 1
+                vstart = self.pos
+                self.value(content, live, f'{path}<{name}>')
+                self.span_end(ki, vstart)
+                self.span_end(si, start)
         else:
             raise Unsupported(k)
 
@@ -467,6 +535,8 @@ def fn_roundtrip(name, T, root, plan):
                               f'        assert!({allowed}, "C03: round trip added member {m["path"]}.{m["name"]} which has no default (or wrote a value that is not valid there)");\n'
                               f'    }}')
     L += checks
+    for kpos, name in em.tags:
+        L.append(f'    assert!(w.toks[{kpos}].is_key() && w.key_is(w.toks[{kpos}], {rstr(name)}), "C03: round trip changed the variant tag");')
     # leaves: equal values at the same positions (present leaves only)
     for pos, n, live in em.leaves:
         if live:
